@@ -166,39 +166,35 @@ OK_ASSUMPTION = re.compile(r'^(PrimFloat\.|Uint63\.|PrimInt63\.|FloatOps\.|float
 
 
 def audit(prop, rundir):
-    """Print Assumptions under every Theorem of Properties/<prop>.v. -> list of dicts"""
+    """Print Assumptions under every Theorem of Properties/<prop>.v. -> (list of dicts, log)"""
     thms = theorems_of(prop)
     if not thms:
         return [], 'no theorems'
     src = 'From AHP Require Import Properties.%s.\n' % prop
     for t in thms:
-        src += 'Check %s.\nPrint Assumptions %s.\n' % (t, t)
+        src += 'Goal True. idtac "@@STMT %s". Abort.\nCheck %s.\nGoal True. idtac "@@ASM %s". Abort.\nPrint Assumptions %s.\n' % (t, t, t, t)
+    src += 'Goal True. idtac "@@END". Abort.\n'
     f = rundir / ('Audit_%s.v' % prop)
     f.write_text(src)
-    rc, out, _ = run(['coqc', '-Q', str(COQ), 'AHP', str(f)], 600, cwd=rundir)
+    rc, out, _ = run(['coqc', '-Q', str(COQ), 'AHP', str(f)], 900, cwd=rundir)
     if rc != 0:
         return [dict(name=t, ok=False, assumptions=['audit failed to compile']) for t in thms], out[-3000:]
-    # split per theorem: each "Check" prints "name\n : stmt", each Print Assumptions prints a block
     res = []
-    chunks = re.split(r'^(?=[A-Za-z0-9_\']+\s*\n?\s*:)', out, flags=re.M)
-    # robust approach: locate the assumptions blocks in order
-    blocks = re.findall(r'(Closed under the global context|Axioms:\n(?:.+\n?)+?(?=\n[A-Za-z0-9_\']+\s*\n?\s+:|\Z))', out)
-    stmts = re.split(r'Closed under the global context|Axioms:\n', out)
-    for i, t in enumerate(thms):
-        blk = blocks[i] if i < len(blocks) else 'missing'
-        stmt = stmts[i] if i < len(stmts) else ''
-        m = re.search(r'(^|\n)(%s\s*\n?\s*:[\s\S]*)$' % re.escape(t), stmt)
-        stmt_text = m.group(2).strip() if m else stmt.strip()
-        if blk.startswith('Closed'):
+    for t in thms:
+        m1 = re.search(r'@@STMT %s\n([\s\S]*?)@@ASM %s\n([\s\S]*?)@@(STMT|END)' % (re.escape(t), re.escape(t)), out)
+        if not m1:
+            res.append(dict(name=t, ok=False, assumptions=['no audit output']))
+            continue
+        stmt, blk = m1.group(1).strip(), m1.group(2).strip()
+        if blk.startswith('Closed under the global context'):
             ass, ok = [], True
-        elif blk == 'missing':
-            ass, ok = ['no Print Assumptions output'], False
+        elif blk.startswith('Axioms:'):
+            ass = [ln.split(':')[0].strip() for ln in blk.split('\n')[1:] if re.match(r'^\S', ln)]
+            ok = all(OK_ASSUMPTION.match(n) for n in ass)
         else:
-            names = [ln.split(':')[0].strip() for ln in blk.split('\n')[1:] if re.match(r'^\S', ln)]
-            ass = names
-            ok = all(OK_ASSUMPTION.match(n) for n in names)
+            ass, ok = ['unparsed: ' + blk[:200]], False
         res.append(dict(name=t, ok=ok, assumptions=ass,
-                        statement_sha=hashlib.sha256(re.sub(r'\s+', ' ', stmt_text).encode()).hexdigest()[:16]))
+                        statement_sha=hashlib.sha256(re.sub(r'\s+', ' ', stmt).encode()).hexdigest()[:16]))
     return res, out[-2000:]
 
 
